@@ -77,6 +77,11 @@ impl CopyHandle {
         while written < len {
             let bytes_to_copy = cmp::min(len - written, self.config.block_size);
             let bytes = copy_file_bytes(&self.infd, &self.outfd, bytes_to_copy)? as u64;
+            if bytes == 0 {
+                // No progress is possible (zero block size, or the
+                // source shrank while being copied); do not spin.
+                return Err(XcpError::CopyError("Source file ended prematurely.".to_string()).into());
+            }
             written += bytes;
             updates.send(StatusUpdate::Copied(bytes))?;
         }
